@@ -79,7 +79,7 @@ def main():
         n_cases = len(lines)
         dbg = lib.run_lines(lib.harness_bin("debug"), lines)
         rel = lib.run_lines(lib.harness_bin("release"), lines)
-        mod = lib.run_lines(lib.driver_bin(), lines)
+        mod = lib.run_lines(lib.driver_bin(), [props.model_line(l) for l in lines])
         # CORR
         for i, c in enumerate(cases):
             pm = P.project(c, mod[i])
